@@ -362,6 +362,9 @@ def crossing(ck):
     for w in range(60 if not ck.thorough() else 1500):
         if ck.mine(w):
             c01.run_crossing(ck, w, ck.seed * 1000003 + 9901)
+    for w in range(16 if not ck.thorough() else 160):
+        if ck.mine(w):
+            c01.run_leading_zero(ck, w, ck.seed * 1000003 + 9977)
     for w in range(36 if not ck.thorough() else 720):
         if ck.mine(w):
             child_on_the_rekeyed_ike_sa(ck, w, ck.seed * 1000003 + 9955)
@@ -371,6 +374,7 @@ def verdict(ck):
     c = ck.counters
     t = ck.thorough()
     ck.floor('crossing-exchange walks', c['crossing.walks'], 40)
+    ck.floor('end-to-end handshakes whose Diffie-Hellman result has a leading zero octet', c['leading_zero.completed_with_rfc_keys'], 12)
     ck.floor('CREATE_CHILD_SA requests answered on an IKE_SA that had already rekeyed itself', c['old_ike_sa.requests_answered'], 25)
     ck.floor('prf+ lengths compared', c['prfplus.lengths_compared'], 3000)
     ck.floor('MODP primes compared with the RFC 3526 formula', c['constants.modp_compared'], 5)
